@@ -478,8 +478,9 @@ package wal
 //@   loop 1 invariant itvalid(it) && !old(EmptyLog(newState)) ==> newMin >= itcur(it)
 //@   loop 1 invariant forall k uint64 :: {smhas(old(newState.segments), k)} smhas(old(newState.segments), k) && (!itvalid(it) || k < itcur(it))
 //@        ==> ite(unsealedSeg(smget(old(newState.segments), k)), old(LastOf(newState)), smget(old(newState.segments), k).MaxIndex) < newMin
-//@   loop 1 invariant itvalid(it) ==> nTruncated == ite(itcur(it) == old(smmin(newState.segments)), 0, itcur(it) - old(FirstSegMin(newState)))
-//@   loop 1 invariant !itvalid(it) ==> nTruncated == ite(old(EmptyLog(newState)), 0, old(LastOf(newState)) - old(FirstSegMin(newState)) + 1)
+//@   loop 1 invariant[C20.head-count-start] itvalid(it) && itcur(it) == old(smmin(newState.segments)) ==> nTruncated == 0
+//@   loop 1 invariant[C20.head-count-skipped] itvalid(it) && itcur(it) != old(smmin(newState.segments)) ==> nTruncated == itcur(it) - old(FirstSegMin(newState))
+//@   loop 1 invariant[C20.head-count-all] !itvalid(it) ==> nTruncated == ite(old(EmptyLog(newState)), 0, old(LastOf(newState)) - old(FirstSegMin(newState)) + 1)
 //@   ensures[C20.head-count] result2 == nil ==> counter("head_truncations") == old(counter("head_truncations"))
 //@        + ite(old(EmptyLog(newState)), 0, ite(newMin > old(LastOf(newState)), old(LastOf(newState)) - old(FirstSegMin(newState)) + 1, newMin - old(FirstSegMin(newState))))
 //@   ensures[C04.head-applied] result2 == nil && old(LastOf(newState)) >= newMin ==> smnonempty(newState.segments) && smget(newState.segments, smmin(newState.segments)).MinIndex == newMin
@@ -507,7 +508,10 @@ package wal
 //@   loop 1 invariant newState.tail.sealed == old(newState.tail.sealed)
 //@   ensures[C04.tail-applied] result2 == nil ==> result1 != nil && smmax(newState.segments) == newMax + 1 && smmin(newState.segments) == old(smmin(newState.segments))
 //@        && smget(newState.segments, smmin(newState.segments)).MinIndex == old(smget(newState.segments, smmin(newState.segments)).MinIndex)
-//@   loop 1 invariant itvalid(it) ==> nTruncated == ite(itcur(it) == old(smmax(newState.segments)), 0, old(LastOf(newState)) - smget(old(newState.segments), itcur(it)).MaxIndex)
+//@   loop 1 invariant itvalid(it) && hasprev(old(newState.segments), itcur(it))
+//@        ==> smget(old(newState.segments), smprev(old(newState.segments), itcur(it))).MaxIndex + 1 == itcur(it) && smget(old(newState.segments), itcur(it)).MinIndex == itcur(it)
+//@   loop 1 invariant[C20.tail-count-start] itvalid(it) && itcur(it) == old(smmax(newState.segments)) ==> nTruncated == 0
+//@   loop 1 invariant[C20.tail-count-dropped] itvalid(it) && itcur(it) != old(smmax(newState.segments)) ==> nTruncated == old(LastOf(newState)) - smget(old(newState.segments), itcur(it)).MaxIndex
 //@   ensures[C20.tail-count] result2 == nil ==> counter("tail_truncations") == old(counter("tail_truncations")) + (old(LastOf(newState)) - newMax)
 //@   ensures[C13.tail-fresh-id] result2 == nil ==> newState.nextSegmentID == old(newState.nextSegmentID) + 1 && smget(newState.segments, smmax(newState.segments)).ID == old(newState.nextSegmentID)
 
